@@ -47,6 +47,31 @@ func c15Directed(rng *rand.Rand, id string) Case {
 	return Case{ID: id, Ops: ops, Tags: []string{"directed-reap"}}
 }
 
+// c15Flap: a member fails, comes back (a flap), fails again later; reaper ticks around
+// reconnect-timeout after the FIRST and after the SECOND failure: it must stay failed until the timeout
+// has passed since the latest failure.
+func c15Flap(rng *rand.Rand, id string) Case {
+	x := hexs([]string{"a", "b", "node d"}[rng.Intn(3)])
+	first := rng.Intn(3)
+	second := first + 1 + rng.Intn(6)
+	ops := []string{"nj " + x, fmt.Sprintf("nl %s %d", x, first)}
+	if rng.Intn(3) == 0 {
+		ops = append(ops, fmt.Sprintf("rp %d -", first+rng.Intn(3)))
+	}
+	ops = append(ops, "nj "+x)
+	if rng.Intn(3) == 0 { // flaps twice
+		mid := first + rng.Intn(second-first+1)
+		ops = append(ops, fmt.Sprintf("nl %s %d", x, mid), "nj "+x)
+	}
+	ops = append(ops, fmt.Sprintf("nl %s %d", x, second))
+	for i, k := 0, 1+rng.Intn(3); i < k; i++ {
+		// around first+R and second+R (R = nodeReconnect)
+		now := []int{first + nodeReconnect + 1, second + nodeReconnect - 1, second + nodeReconnect, second + nodeReconnect + 1, second + 1}[rng.Intn(5)]
+		ops = append(ops, fmt.Sprintf("rp %d -", now))
+	}
+	return Case{ID: id, Ops: ops, Tags: []string{"directed-flap"}}
+}
+
 func c15Gen(rng *rand.Rand, tier string) []Case {
 	nd, nr := 120, 200
 	if tier == "thorough" {
@@ -55,6 +80,13 @@ func c15Gen(rng *rand.Rand, tier string) []Case {
 	var out []Case
 	for i := 0; i < nd; i++ {
 		out = append(out, c15Directed(rng, fmt.Sprintf("d%d", i)))
+	}
+	nf := 40
+	if tier == "thorough" {
+		nf = 2000
+	}
+	for i := 0; i < nf; i++ {
+		out = append(out, c15Flap(rng, fmt.Sprintf("f%d", i)))
 	}
 	for i := 0; i < nr; i++ {
 		out = append(out, nodeRandomCase(rng, c15Profile, fmt.Sprintf("r%d", i)))
@@ -78,7 +110,7 @@ func c15Gen(rng *rand.Rand, tier string) []Case {
 func init() {
 	register(&Prop{
 		ID: "C15",
-		Rule: "one real serf node per case (loopback, never joined); directed histories (2-6 members join, fail/leave at chosen hours, forced out ± prune, 1-3 reaper ticks at chosen hours with per-member overrides, rejoins) " +
+		Rule: "one real serf node per case (loopback, never joined); flap histories (fail, rejoin, fail again later, reaper ticks around the reconnect timeout after the first and after the latest failure); directed histories (2-6 members join, fail/leave at chosen hours, forced out ± prune, 1-3 reaper ticks at chosen hours with per-member overrides, rejoins) " +
 			"plus random sequences of memberlist notifications, join/leave(±prune) intents, merges, force-leaves, Leave, reaper ticks over 6 names (incl. empty, with space, the local node); " +
 			"non-trivial = a reaper tick after a memberlist leave notification and at least one leave intent/force-leave; distinct = distinct op sequence",
 		Gen:  c15Gen,
